@@ -918,6 +918,10 @@ func TestVerifNhsim(t *testing.T) {
 		rec.keep = func(ev string) bool {
 			return ev == "Init" || ev == "Req" || ev == "Served" || ev == "Phase" || ev == "Fault" || ev == "Crash" || ev == "Panic"
 		}
+	case "staleview":
+		rec.keep = func(ev string) bool {
+			return ev == "Init" || ev == "Leader" || ev == "Fault" || ev == "Panic" || ev == "Skipped"
+		}
 	case "catchup":
 		rec.keep = func(ev string) bool {
 			return ev == "Init" || ev == "CatchUp" || ev == "Fault" || ev == "Panic"
@@ -975,6 +979,10 @@ func TestVerifNhsim(t *testing.T) {
 		}
 		if mode == "quiesce" {
 			nhScenarioQuiesce(rec, tid, s, sms[(tid/2)%3], p.store, nhEnvInt("VERIF_ROUNDS", 4))
+			continue
+		}
+		if mode == "staleview" {
+			nhScenarioStaleView(rec, tid, s, sms[tid%3], p.store)
 			continue
 		}
 		if mode == "catchup" {
